@@ -149,11 +149,17 @@ def oracle_child(sc, requests, alt_every=5):
     for n, (sid, path) in enumerate(requests):
         d, s, _k, x = reference(sc, texts, sid, path)
         out["%s|%s" % (sid, pkey(path))] = [d, s, x]
-        if alt_every and n % alt_every == 0:
-            shift = 1 + (n // alt_every) % 3
+        if len(requests) <= 4:
+            shifts = (1, 2, 3)  # replay of a minimised history: try every other form
+        elif alt_every and n % alt_every == 0:
+            shifts = (1 + (n // alt_every) % 3,)
+        else:
+            shifts = ()
+        for shift in shifts:
             d2, s2, _k2, x2 = reference_alt_form(sc, texts, sid, path, shift)
             if d2 != d:
                 alt["%s|%s" % (sid, pkey(path))] = [shift, d2, s2, x2]
+                break
     return {"ref": out, "alt": alt}
 
 
@@ -405,7 +411,7 @@ def execute(sc, surface, ops=None, want_trace=False, max_viol=5):
         res["scenario"] = sc
         res["ops"] = hist["ops"]
         res["events"] = [
-            {k: ev[k] for k in ("i", "op", "s", "x", "chg", "reload") if k in ev} for ev in hist["events"]
+            {k: ev[k] for k in ("i", "op", "d", "s", "x", "sid", "chg", "reload") if k in ev} for ev in hist["events"]
         ]
     return res
 
